@@ -574,7 +574,19 @@ class Gen:
                 fpos = kinds_.index('fld')
                 segnode = EM.resolve(m, mp[:fpos])
                 fld_absent = segnode is not None and EM.resolve(m, mp[:fpos + 1]) is None
-                if fld_absent and len(path) > fpos + 1 and segnode.key != 'MSH':
+                if fld_absent and segnode.key != 'MSH' and rng.random() < 0.4:
+                    # ... or by an assignment of that very child that is refused (another version / level):
+                    # what the read left behind must not become a child on the way
+                    fidx = path[fpos][1]
+                    fref_ = HN.field_ref(self.version, segnode.key, fidx)
+                    other_version = rng.choice([v for v in T.VERSIONS if v != self.version])
+                    kw = {'version': other_version} if (self.twin or rng.random() < 0.5) else {'level': 2 if self.level == 1 else 1}
+                    if fref_ is not None and ('level' in kw or HN.field_ref(other_version, segnode.key, fidx)):
+                        inst = {'cls': 'Field', 'name': '%s_%d' % (segnode.key, fidx), 'text': self.field_value(fref_, 0, corpus._ec(0))}
+                        inst.update(kw)
+                        self.pending.append({'k': 'set', 'p': path[:fpos], 'c': ['fld', fidx, 0, self.sp()], 'via': 'attr',
+                                             'v': {'inst': inst}, 'bad': 'version_mismatch' if 'version' in kw else 'level_mismatch'})
+                elif fld_absent and len(path) > fpos + 1 and segnode.key != 'MSH':
                     cstep = path[fpos + 1]
                     comps = dict(_usable_comps(self.version, HN.field_ref(self.version, segnode.key, path[fpos][1])))
                     if cstep[1] in comps:
@@ -934,7 +946,7 @@ class Gen:
             causes += ['msg_other_text', 'seg_cardinality', 'seg_level_mismatch', 'seg_wrong_name']
         if self.twin:     # each twin has its own level: a level mismatch means nothing in lock-step
             causes = [c for c in causes if 'level' not in c]
-        causes += ['unknown_varies']
+        causes += ['unknown_varies', 'base_overflow']
         cause = rng.choice(causes)
         if cause == 'unknown_varies':
             # the one nameless field STRICT lets be constructed (datatype 'varies'): no segment may take it
@@ -943,6 +955,30 @@ class Gen:
             path, seg_name, node = rng.choice(targets)
             return {'k': 'add_unknown', 'p': path, 'text': gen.valid_literal('ST', self.tok, rng), 'datatype': 'varies',
                     'bad': 'unknown_element'}
+        if cause == 'base_overflow':
+            # a second component / subcomponent for an element of a base datatype (preferably one that is a
+            # base datatype in some versions only: TN, CM, SNM): refused under both levels
+            if not targets:
+                return None
+            path, seg_name, node = rng.choice(targets)
+            cands = []
+            for i, c in _usable_fields(self.version, seg_name):
+                if T.is_base(self.version, c[1][2]):
+                    cands.append(('fld', i, None, c[1][2]))
+                else:
+                    for ci, ce in _usable_comps(self.version, c[1]):
+                        if T.is_base(self.version, ce[1][2]):
+                            cands.append(('cmp', i, ci, ce[1][2]))
+            if not cands:
+                return None
+            prefer = [x for x in cands if x[3] in ('TN', 'CM', 'SNM')]
+            pick = rng.choice(prefer) if prefer and rng.random() < 0.7 else rng.choice(cands)
+            a, b = gen.valid_literal(pick[3], self.tok, rng), gen.valid_literal(pick[3], self.tok, rng)
+            if pick[0] == 'fld':
+                return {'k': 'set', 'p': path, 'c': ['fld', pick[1], 0, self.sp()], 'via': 'attr', 'bad': 'base_overflow',
+                        'v': {'text': a + self.ec['COMPONENT'] + b}}
+            return {'k': 'set', 'p': path + [['fld', pick[1], 0, 0]], 'c': ['cmp', pick[2], 0, self.sp()], 'via': 'attr',
+                    'bad': 'base_overflow', 'v': {'text': a + self.ec['SUBCOMPONENT'] + b}}
         other_level = 2 if self.level == 1 else 1
         other_version = rng.choice([v for v in T.VERSIONS if v != self.version])
         if cause.startswith('seg_') or cause == 'msg_other_text':
